@@ -158,6 +158,35 @@ pub fn gen(seed: u64, tier: &str) -> Vec<Value> {
         let details: Vec<Value> = l.iter().map(|k| rand_detail(&mut rng, *k)).collect();
         out.push(json!({"form":"vec","class":"ordered_lists","code":rng.gen_range(0..17),"msg":str_json(&rs(&mut rng)),"details":details}));
     }
+    // field sweep: for every kind, every string field empty / non-empty and every list of length 0..2; RetryInfo with no delay and
+    // delays on a grid of seconds x nanos (incl. sub-second, the protobuf maximum and beyond it)
+    {
+        let mut one = |d: ErrorDetail, out: &mut Vec<Value>| {
+            let j = to_json(&d);
+            out.push(json!({"form":"vec","class":"field_sweep","code":3,"msg":str_json("m"),"details":[j.clone()]}));
+            out.push(json!({"form":"set","class":"field_sweep","code":3,"msg":str_json("m"),"details":[j]}));
+        };
+        one(RetryInfo::new(None).into(), &mut out);
+        for secs in [0u64, 1, 59, 315_575_999_999, 315_576_000_000, 315_576_000_001, 4_000_000_000_000] { for nanos in [0u32, 1, 250_000_000, 999_999_999] {
+            one(RetryInfo::new(Some(Duration::new(secs, nanos))).into(), &mut out);
+        } }
+        let sv = ["", "x"];
+        for a in sv { for b in sv {
+            one(RequestInfo::new(a, b).into(), &mut out);
+            one(LocalizedMessage::new(a, b).into(), &mut out);
+            one(DebugInfo::new(Vec::<String>::new(), a).into(), &mut out);
+            one(DebugInfo::new(vec![a.to_string(), b.to_string()], b).into(), &mut out);
+            one(ErrorInfo::new(a, b, HashMap::<String, String>::new()).into(), &mut out);
+            one(ErrorInfo::new(a, b, HashMap::from([(a.to_string(), b.to_string())])).into(), &mut out);
+            for n in 0..3usize {
+                one(QuotaFailure::new((0..n).map(|_| QuotaViolation::new(a, b)).collect::<Vec<_>>()).into(), &mut out);
+                one(BadRequest::new((0..n).map(|_| FieldViolation::new(a, b)).collect::<Vec<_>>()).into(), &mut out);
+                one(Help::new((0..n).map(|_| HelpLink::new(a, b)).collect::<Vec<_>>()).into(), &mut out);
+                one(PreconditionFailure::new((0..n).map(|_| PreconditionViolation::new(a, b, a)).collect::<Vec<_>>()).into(), &mut out);
+            }
+            for c in sv { for d in sv { one(ResourceInfo::new(a, b, c, d).into(), &mut out); } }
+        } }
+    }
     // hostile details bytes
     let n = if tier == "thorough" { 4000 } else { 500 };
     for _ in 0..n {
